@@ -20,6 +20,7 @@ import YtkModel.Codec
 import YtkProofs.HeapOverlay
 import YtkProofs.HeapOverlayPut
 import YtkProofs.Decisions2
+import YtkProofs.FuncsDomOverlay
 
 namespace Ytk.C06
 
@@ -906,6 +907,101 @@ theorem nonvacuous_last_wins :
     Ytk.lookup (merged .meld (exState.take 2)) "a.b" = some (i "2") ∧
     Ytk.lookup (merged .meld exState) "a.b" = some (i "2") ∧
     Ytk.lookup (merged .meld exState) "a.c" = some (i "4") := by
+  decide +kernel
+
+end Ytk.C06
+
+/-! ## xlate7d: the REGENERATED translation of dom/overlay.go's walkers and lookups (Generated/FuncsDom.lean)
+
+  `walkNode / walkList / walkContainer` (the code behind `Walk`), `Lookup`, `LookupAny` are rewritten from the Go source on
+  every run.  The visitor is a PARAMETER of the translation, in the monad `Go.Res` (it may panic); the model's walkers
+  carry a visitor with state σ.  Instantiating σ with "the first abnormal outcome of the visitor"
+  (`FuncsDomOverlay.liftV`) the two are EQUAL for every visitor — which pins down the set of visited leaves, their order
+  and the early exit (a visitor that would panic on a leaf behind the one where it returned false is not reached). -/
+namespace Ytk.C06
+open Ytk.Generated Ytk.FuncsDomOverlay
+
+theorem walkContainer_generated_eq_model (g : String → String → Scalar → Go.Res Bool) (layer path : String) (c : AMap Node) :
+    FuncsDom.walkContainer layer path c (fnOf g) = outcome (Overlay.walkKvs (liftV g) layer c path (.ok ())) :=
+  FuncsDomOverlay.walkContainer_generated_eq_model g layer path c
+
+theorem walkList_generated_eq_model (g : String → String → Scalar → Go.Res Bool) (layer path : String) (l : List Node) :
+    FuncsDom.walkList layer path l (fnOf g) = outcome (Overlay.walkList (liftV g) layer l path 0 (.ok ())) :=
+  FuncsDomOverlay.walkList_generated_eq_model g layer path l
+
+theorem walkNode_generated_eq_model (g : String → String → Scalar → Go.Res Bool) (layer path : String) (parent n : Node) :
+    FuncsDom.walkNode layer path parent n (fnOf g) = outcome (Overlay.walkNode (liftV g) layer n path (.ok ())) :=
+  FuncsDomOverlay.walkNode_generated_eq_model g layer path parent n
+
+/-- Lookup(overlay, path) over the Go state `names` + `overlays` representing the model's layer list `s` -/
+theorem overlayLookup_generated_eq_model (s : Overlay) (ov : GoDom.ContMap) (hr : Rep s ov) (l path : String) :
+    FuncsDom.overlayLookup (Overlay.layerNames s) ov l path = .ok (Overlay.lookup s l path) :=
+  FuncsDomOverlay.overlayLookup_generated_eq_model s ov hr l path
+
+/-- LookupAny(path): the first layer in creation order with a hit -/
+theorem overlayLookupAny_generated_eq_model (s : Overlay) (ov : GoDom.ContMap) (hr : Rep s ov) (path : String) :
+    FuncsDom.overlayLookupAny (Overlay.layerNames s) ov path = .ok (Overlay.lookupAny s path) :=
+  FuncsDomOverlay.overlayLookupAny_generated_eq_model s ov hr path
+
+/-- the translated walkers RUN with a visitor that stops at `b` and would PANIC on `c`: the early exit is taken
+    (`ok false`); with a visitor that accepts `b` the panic is reached -/
+theorem nonvacuous_walk_generated :
+    FuncsDom.walkContainer "L" "" [("a", .list [.leaf ⟨"int", "1"⟩]), ("b", .leaf ⟨"int", "2"⟩), ("c", .leaf ⟨"int", "3"⟩)]
+        (fnOf (fun _ p _ => if p == "b" then .ok false else if p == "c" then .panic else .ok true)) = .ok false ∧
+    FuncsDom.walkContainer "L" "" [("a", .list [.leaf ⟨"int", "1"⟩]), ("b", .leaf ⟨"int", "2"⟩), ("c", .leaf ⟨"int", "3"⟩)]
+        (fnOf (fun _ p _ => if p == "c" then .panic else .ok true)) = .panic ∧
+    FuncsDom.overlayLookupAny ["x", "y"] [("x", [("k", .leaf ⟨"int", "1"⟩)]), ("y", [("k", .leaf ⟨"int", "2"⟩), ("m", .leaf ⟨"int", "3"⟩)])] "m"
+      = .ok (some (.leaf ⟨"int", "3"⟩)) := by
+  decide +kernel
+
+/-- merger.mergeOverlay — what `Merged()` runs: the fold of the translated `mergeContainers` over the layers in `names`
+    order.  Over the Go state (`names`, `overlays`) of an overlay document with distinct layer names and well-formed
+    layers it is the model's `merged`, for every list strategy `f` that meets its contract on lists of size ≤ M -/
+theorem mergeOverlay_generated_eq_model (o : ListStrategy) (f : List Node → List Node → Go.Res (List Node)) (M : Nat)
+    (hf : FuncsDomMerge.ListFnOk o f M) (s : Overlay) (ov : GoDom.ContMap) (hr : Rep s ov)
+    (hnd : (Overlay.layerNames s).Nodup) (hw : ∀ p ∈ s, (Node.cont p.2).WF ∧ Node.sizeKvs p.2 ≤ M) :
+    FuncsDom.mergeOverlay f (some ⟨Overlay.layerNames s, ov⟩) = .ok (Overlay.merged o s) :=
+  FuncsDomOverlay.mergeOverlay_generated_eq_model o f M hf s ov hr hnd hw
+
+/-- `Merged(ListsMergeAppend())`: the list strategy is the translated `mergeListsAppend`; no size bound is left -/
+theorem merged_append_generated_eq_model (s : Overlay) (ov : GoDom.ContMap) (hr : Rep s ov)
+    (hnd : (Overlay.layerNames s).Nodup) (hw : ∀ p ∈ s, (Node.cont p.2).WF) :
+    FuncsDom.mergeOverlay FuncsDom.mergeListsAppend (some ⟨Overlay.layerNames s, ov⟩) = .ok (Overlay.merged .append s) := by
+  obtain ⟨M, hM⟩ : ∃ M, ∀ p ∈ s, Node.sizeKvs p.2 ≤ M := by
+    clear hr hnd hw
+    induction s with
+    | nil => exact ⟨0, by intro p hp; cases hp⟩
+    | cons q rest ih =>
+      obtain ⟨M, hM⟩ := ih
+      refine ⟨max M (Node.sizeKvs q.2), ?_⟩
+      intro p hp
+      rcases List.mem_cons.mp hp with rfl | hp
+      · exact Nat.le_max_right ..
+      · exact Nat.le_trans (hM p hp) (Nat.le_max_left ..)
+  exact FuncsDomOverlay.mergeOverlay_generated_eq_model .append _ M (FuncsDomMerge.listFnOk_append M) s ov hr hnd
+    (fun p hp => ⟨hw p hp, hM p hp⟩)
+
+/-- the default `Merged()`: the list strategy is the same merger's translated `mergeListsMeld` (`meldKnot`, unrolled
+    as often as the layers are deep) -/
+theorem merged_meld_generated_eq_model (M : Nat) (s : Overlay) (ov : GoDom.ContMap) (hr : Rep s ov)
+    (hnd : (Overlay.layerNames s).Nodup) (hw : ∀ p ∈ s, (Node.cont p.2).WF ∧ Node.sizeKvs p.2 ≤ M) :
+    FuncsDom.mergeOverlay (FuncsDomMerge.meldKnot M) (some ⟨Overlay.layerNames s, ov⟩) = .ok (Overlay.merged .meld s) :=
+  FuncsDomOverlay.mergeOverlay_generated_eq_model .meld _ M (FuncsDomMerge.listFnOk_meld M) s ov hr hnd hw
+
+/-- merger.mergeLists is the call of the strategy field -/
+theorem mergeLists_generated_eq_model (f : List Node → List Node → Go.Res (List Node)) (a b : List Node) :
+    FuncsDom.mergeLists f a b = f a b := by
+  unfold FuncsDom.mergeLists
+  cases f a b <;> rfl
+
+/-- the translated `mergeOverlay` RUN on two layers (created in the order top, base): later layers win, lists append -/
+theorem nonvacuous_mergeOverlay_generated :
+    FuncsDom.mergeOverlay FuncsDom.mergeListsAppend
+        (some ⟨["top", "base"], [("base", [("a", .leaf ⟨"int", "1"⟩), ("l", .list [.leaf ⟨"int", "9"⟩])]),
+                                  ("top", [("a", .leaf ⟨"int", "2"⟩), ("b", .leaf ⟨"int", "3"⟩), ("l", .list [.leaf ⟨"int", "8"⟩])])]⟩)
+      = .ok [("a", .leaf ⟨"int", "1"⟩), ("b", .leaf ⟨"int", "3"⟩), ("l", .list [.leaf ⟨"int", "8"⟩, .leaf ⟨"int", "9"⟩])] ∧
+    FuncsDom.mergeOverlay FuncsDom.mergeListsAppend (some ⟨["ghost"], []⟩) = .panic ∧
+    FuncsDom.mergeOverlay FuncsDom.mergeListsAppend none = .panic := by
   decide +kernel
 
 end Ytk.C06
